@@ -102,9 +102,15 @@ def v3_who_may_bind(ctx):
             ctx.finding('V3', 'binder/%s' % fn_key(b.path), '%s creates a binding; only the assignment parser may' % fn_key(b.path), site=t['loc'])
             continue
         conds = b.cond_text(bid)
-        parsed = [c for c in conds if 'AddSubtractParser' in c and 'parse' in c or c.startswith('discr($expression') or c.startswith('discr(expression')]
-        fresh = [c for c in conds if 'contains_key' in c or 'variable_exist' in c]
-        okp = any(re.search(r'discr\(.*expression.*\)', c) for c in conds)
+        deep = [(render(d), v) for (_, d, v) in b.conditions(bid)]
+
+        def is_false(v):       # the decision taken is `false` / `None` (discriminant 0)
+            return (not isinstance(v, tuple) and set(v) == {0}) or (isinstance(v, tuple) and v[0] == 'else' and 1 in v[1] and 0 not in v[1])
+        # "the name is not bound yet": contains_key(variables, name) is false, or get(variables, name) [.cloned()] is None
+        fresh = [c for (c, v) in deep if re.search(r'^(BTreeMap::contains_key|discr\((Option::cloned\()?BTreeMap::get)\((RefCell::borrow\()?parser\.session\.variables', c) and is_false(v)]
+        fresh = ['x=[0]'] if fresh else []
+        # "the right-hand side parsed": the result of the expression parser is Ok
+        okp = any(re.fullmatch(r'discr\(parse\(parser\)\)', c) and not isinstance(v, tuple) and set(v) == {0} for (c, v) in deep)
         if not fresh or not any(c.endswith('=[0]') for c in fresh):
             ctx.finding('V3', 'AssignmentParser::parse/rebinds-at-parse-time',
                         'the assignment parser registers a (fresh, empty) binding even when the name is already bound: an existing value is lost before the right-hand side has been evaluated (%s)' % conds[-3:], site=t['loc'])
